@@ -290,4 +290,26 @@ def run(chk):
             if upd is None or upd[0] > take or upd[1] != rec:
                 chk.violation(r_box, key, "%s: the record loop uses the box (statement %s) %s box.update(%s): the operation applies to the previous record's cells" % (
                     f["n"], take, "without" if upd is None else "before", rec), f["file"], lp["l"])
+    # ---- C12.boxscope: a record's box must not outlive the keyword that carries it
+    r_bs = chk.rule("C12.boxscope", "a function that narrows the box to a record (box.update(record)) works on its own copy of the box, so the section's current input box is unchanged for the keywords that follow", floor=3)
+    for f in fns:
+        if not f["file"].endswith("FieldProps.cpp"):
+            continue
+        upd = [c for c in walk(f["body"]) if meth(c)[0] == "update" and meth(c)[1] is not None and strip(meth(c)[1]).get("k") == "Ref"
+               and "Box" in (strip(meth(c)[1]).get("t") or "") and c.get("a") and "record" in show(c["a"][0]).lower()]
+        for c in upd:
+            obj = strip(meth(c)[1])
+            key = "%s:%s" % (f["n"], obj["n"])
+            own = None
+            if obj.get("d") == "Parm":
+                p_ = [q for q in f["params"] if q["n"] == obj["n"]][0]
+                own = not p_.get("ref") and not p_.get("ptr")
+            elif obj.get("d") == "Var":
+                decl = [v for n in walk(f["body"]) if n["k"] == "Decl" for v in n["vars"] if v["n"] == obj["n"]]
+                own = bool(decl) and not decl[0].get("ref") and not decl[0].get("ptr")
+            chk.instance(r_bs, key, sample=dict(function=f["n"], box=obj["n"], type=obj.get("t"), owns_copy=own))
+            if own is False:
+                chk.violation(r_bs, key, "%s narrows `%s` (%s) to the record's box but does not own it: the caller's current input box stays narrowed for every keyword that follows in the section" % (f["n"], obj["n"], obj.get("t")), f["file"], c["l"])
+            break
+
     chk.assumptions += ["role table in rules/C12.py: FieldData::data/value_status are per active cell, global_* per grid cell, deck_* per input-box cell; Box::global_index_list() stores the global index in .active_index (documented)"]
